@@ -207,10 +207,13 @@ namespace bloch::runtime {
         // normalised, and move it into the |...0> subspace (an X when the branch was |1>).
         // Merely projecting onto |...0> would post-select qubits entangled with q.
         size_t bit = size_t{1} << q;
+        double p0 = 0.0;
         double p1 = 0.0;
         for (size_t i = 0; i < m_state.size(); ++i) {
             if (i & bit)
                 p1 += std::norm(m_state[i]);
+            else
+                p0 += std::norm(m_state[i]);
         }
         std::uniform_real_distribution<double> dist(0.0, 1.0);
         double r = dist(rng);
@@ -219,7 +222,10 @@ namespace bloch::runtime {
         VerifDraws::note('r', q, r, r < p1 ? 1 : 0);
 #endif
         bool one = r < p1;
-        double norm = std::sqrt(one ? p1 : 1 - p1);
+        // Never keep a branch without amplitude (possible only through rounding of p1).
+        if ((one ? p1 : p0) == 0.0)
+            one = !one;
+        double norm = std::sqrt(one ? p1 : p0);
         for (size_t i = 0; i < m_state.size(); ++i) {
             if (i & bit)
                 continue;
@@ -235,10 +241,14 @@ namespace bloch::runtime {
         ensureQubitActive(q);
         // Compute probability of |1>, sample, and collapse the state accordingly.
         size_t bit = size_t{1} << q;
+        double p0 = 0;
         double p1 = 0;
-        for (size_t i = 0; i < m_state.size(); ++i)
+        for (size_t i = 0; i < m_state.size(); ++i) {
             if (i & bit)
                 p1 += std::norm(m_state[i]);
+            else
+                p0 += std::norm(m_state[i]);
+        }
         std::uniform_real_distribution<double> dist(0.0, 1.0);
         double r = dist(rng);
 #ifdef BLOCH_VERIF
@@ -246,7 +256,11 @@ namespace bloch::runtime {
         VerifDraws::note('m', q, r, r < p1 ? 1 : 0);
 #endif
         int res = r < p1 ? 1 : 0;
-        double norm = std::sqrt(res ? p1 : 1 - p1);
+        // Normalise by the kept branch's own weight (1 - p1 loses all precision when that
+        // branch is improbable), and never keep a branch without amplitude.
+        if ((res ? p1 : p0) == 0.0)
+            res = !res;
+        double norm = std::sqrt(res ? p1 : p0);
         for (size_t i = 0; i < m_state.size(); ++i) {
             if (((i & bit) ? 1 : 0) != res)
                 m_state[i] = 0;
